@@ -34,6 +34,7 @@ type a7Gen struct {
 	Specials  bool // fifo / dev / chardev / socket / irregular nodes
 	Hardlinks bool // groups of regular files with links > 1 and a common (inode, device)
 	NoInodes  bool // Windows-style snapshot: no node has a link count, an inode or a device id
+	Clones    bool // some directories get the same children as an earlier directory of the run (same tree blob, as after `cp -al`)
 	Weird     bool // metadata the archiver never writes (sizes on non-files, links=0 with inode, shared keys, unknown / empty type)
 	MaxDepth  int
 	MaxKids   int
@@ -41,6 +42,7 @@ type a7Gen struct {
 	pool      [][]byte
 	nextIno   uint64
 	groups    []*a7Node // templates of hard-link groups of the current tree
+	dirPool   []*a7Node // non-empty directories generated so far (for Clones)
 }
 
 var a7DefaultNames = []string{"a", "b", "c", "d", "e", "f.txt", "dir", "sub", "x y", "zz", "ü", "A", "-", "a.b", "lnk", "0"}
@@ -190,7 +192,14 @@ func (g *a7Gen) dir(name string, depth int) *a7Node {
 		n.Mode |= os.ModeSticky
 	}
 	n.Inode = g.ino()
-	n.Kids = g.level(depth + 1)
+	if g.Clones && len(g.dirPool) > 0 && g.h.Intn(2) == 0 {
+		n.Kids = a7Copy(g.dirPool[g.h.Intn(len(g.dirPool))].Kids)
+	} else {
+		n.Kids = g.level(depth + 1)
+	}
+	if g.Clones && len(n.Kids) > 0 {
+		g.dirPool = append(g.dirPool, n)
+	}
 	if g.Weird && g.h.Intn(8) == 0 {
 		n.Size = 4096
 	}
@@ -371,6 +380,17 @@ func (m *a7Num) Emit(h *H, key string, nodes []*a7Node, depth int) {
 			m.Emit(h, key, n.Kids, depth+1)
 		}
 	}
+}
+
+func a7Copy(nodes []*a7Node) []*a7Node {
+	var out []*a7Node
+	for _, n := range nodes {
+		c := *n
+		c.Content, c.Subtree = nil, nil
+		c.Kids = a7Copy(n.Kids)
+		out = append(out, &c)
+	}
+	return out
 }
 
 func a7Count(nodes []*a7Node) int {
